@@ -59,62 +59,69 @@ def bounded_connect_helpers(tier, seed):
                 for evenly, mc in [(True, None)] + [(False, m) for m in (1, 2, 3, float("inf"))]:
                     if not evenly and ns > nd * mc:
                         continue
+                    for kind in (("names", "entities") if ns <= 3 and nd <= 3 else ("names",)):
 
-                    def run(ch, ns=ns, nd=nd, evenly=evenly, mc=mc):
-                        def randint(a, b):
-                            if b < a:
-                                raise ValueError("empty range for randrange()")
-                            return a + ch.choose(b - a + 1)
+                        def run(ch, ns=ns, nd=nd, evenly=evenly, mc=mc, kind=kind):
+                            def randint(a, b):
+                                if b < a:
+                                    raise ValueError("empty range for randrange()")
+                                return a + ch.choose(b - a + 1)
 
-                        def shuffle(lst):
-                            n = len(lst)
-                            if n not in perms_cache:
-                                perms_cache[n] = list(itertools.permutations(range(n)))
-                            p = perms_cache[n][ch.choose(len(perms_cache[n]))]
-                            lst[:] = [lst[i] for i in p]
-                        random.randint, random.shuffle = randint, shuffle
-                        U.random.randint, U.random.shuffle = randint, shuffle
-                        rec = _Recorder()
-                        src = [f"s{i}" for i in range(ns)]
-                        dest = [f"d{i}" for i in range(nd)]
-                        dest_arg = list(dest)
-                        try:
-                            kw = {} if evenly else {"evenly": False, "max_connects": mc}
-                            ret = U.connect_randomly(rec, src, dest_arg, "a", ("b", "c"), **kw)
-                            err = None
-                        except Exception as e:   # noqa: BLE001
-                            ret, err = None, e
-                        return rec, src, dest, dest_arg, ret, err
+                            def shuffle(lst):
+                                n = len(lst)
+                                if n not in perms_cache:
+                                    perms_cache[n] = list(itertools.permutations(range(n)))
+                                p = perms_cache[n][ch.choose(len(perms_cache[n]))]
+                                lst[:] = [lst[i] for i in p]
+                            random.randint, random.shuffle = randint, shuffle
+                            U.random.randint, U.random.shuffle = randint, shuffle
+                            rec = _Recorder()
+                            if kind == "names":
+                                src = [f"s{i}" for i in range(ns)]
+                                dest = [f"d{i}" for i in range(nd)]
+                            else:
+                                # real Entity objects; destinations from two simulator instances with the SAME entity ids
+                                from mosaik.scenario import Entity
+                                src = [Entity("S-0", f"s{i}", "S", None, None) for i in range(ns)]
+                                dest = [Entity("A-0" if i % 2 == 0 else "B-0", f"d{i // 2}", "D", None, None) for i in range(nd)]
+                            dest_arg = list(dest)
+                            try:
+                                kw = {} if evenly else {"evenly": False, "max_connects": mc}
+                                ret = U.connect_randomly(rec, src, dest_arg, "a", ("b", "c"), **kw)
+                                err = None
+                            except Exception as e:   # noqa: BLE001
+                                ret, err = None, e
+                            return rec, src, dest, dest_arg, ret, err
 
-                    for (rec, src, dest, dest_arg, ret, err), taken in _all_runs(run):
-                        cases += 1
-                        nontrivial += 1 if ns >= 1 else 0
-                        problems = []
-                        if err is not None:
-                            problems.append(f"raised {type(err).__name__}: {err}")
-                        else:
-                            per_src = {s: [c for c in rec.calls if c[0] == s] for s in src}
-                            if any(len(v) != 1 for v in per_src.values()) or len(rec.calls) != len(src):
-                                problems.append(f"not every source connected exactly once: {[(c[0], c[1]) for c in rec.calls]}")
-                            if any(c[1] not in dest for c in rec.calls):
-                                problems.append("connected to something outside the destination set")
-                            if any(c[2] != ("a", ("b", "c")) for c in rec.calls):
-                                problems.append("attribute pairs not passed on unchanged")
-                            cnt = {d: sum(1 for c in rec.calls if c[1] == d) for d in dest}
-                            if evenly and max(cnt.values()) - min(cnt.values()) > 1:
-                                problems.append(f"connections per destination differ by more than one: {cnt}")
-                            if not evenly and max(cnt.values()) > mc:
-                                problems.append(f"a destination received more than max_connects={mc}: {cnt}")
-                            if ret != {d for d, n in cnt.items() if n > 0}:
-                                problems.append(f"returned set {ret} is not the set of connected destinations {cnt}")
-                            if dest_arg != dest:
-                                problems.append(f"the caller's destination list was modified: {dest_arg}")
-                        if problems:
-                            failures.append({"desc": f"connect_randomly({ns} sources, {len(dest)} destinations, evenly={evenly}, "
-                                                     f"max_connects={mc}) with random choices {taken}: " + "; ".join(problems),
-                                             "case": {"ns": ns, "nd": nd, "evenly": evenly, "max_connects": str(mc), "choices": taken}})
-                            if len(failures) >= 5:
-                                return {"bound": _bound(max_src, max_dest), "cases": cases, "nontrivial": nontrivial, "failures": failures}
+                        for (rec, src, dest, dest_arg, ret, err), taken in _all_runs(run):
+                            cases += 1
+                            nontrivial += 1 if ns >= 1 else 0
+                            problems = []
+                            if err is not None:
+                                problems.append(f"raised {type(err).__name__}: {err}")
+                            else:
+                                per_src = {id(s_): [c for c in rec.calls if c[0] is s_] for s_ in src}
+                                if any(len(v) != 1 for v in per_src.values()) or len(rec.calls) != len(src):
+                                    problems.append(f"not every source connected exactly once: {[(c[0], c[1]) for c in rec.calls]}")
+                                if any(not any(c[1] is d for d in dest) for c in rec.calls):
+                                    problems.append("connected to something outside the destination set")
+                                if any(c[2] != ("a", ("b", "c")) for c in rec.calls):
+                                    problems.append("attribute pairs not passed on unchanged")
+                                cnt = {i: sum(1 for c in rec.calls if c[1] is d) for i, d in enumerate(dest)}
+                                if evenly and max(cnt.values()) - min(cnt.values()) > 1:
+                                    problems.append(f"connections per destination differ by more than one: {cnt}")
+                                if not evenly and max(cnt.values()) > mc:
+                                    problems.append(f"a destination received more than max_connects={mc}: {cnt}")
+                                if sorted(id(x) for x in ret) != sorted(id(dest[i]) for i, n in cnt.items() if n > 0) or len(ret) != len(set(map(id, ret))):
+                                    problems.append(f"returned set {ret} is not the set of connected destinations {cnt}")
+                                if len(dest_arg) != len(dest) or any(x is not y for x, y in zip(dest_arg, dest)):
+                                    problems.append(f"the caller's destination list was modified: {dest_arg}")
+                            if problems:
+                                failures.append({"desc": f"connect_randomly({ns} sources, {len(dest)} destinations [{kind}], evenly={evenly}, "
+                                                         f"max_connects={mc}) with random choices {taken}: " + "; ".join(problems),
+                                                 "case": {"ns": ns, "nd": nd, "evenly": evenly, "max_connects": str(mc), "choices": taken}})
+                                if len(failures) >= 5:
+                                    return {"bound": _bound(max_src, max_dest), "cases": cases, "nontrivial": nontrivial, "failures": failures}
         # connect_many_to_one
         # (src_set is typed Iterable[Entity]: lists, tuples, sets and one-shot iterables alike)
         shapes = {"list": list, "tuple": tuple, "generator": lambda xs: (x for x in xs), "iterator": iter,
